@@ -4,6 +4,7 @@ package cmap
 
 import (
 	"seehuhn.de/go/pdf/font/charcode"
+	"seehuhn.de/go/postscript"
 	"seehuhn.de/go/postscript/cid"
 	"seehuhn.de/go/pdf/internal/verifrt"
 )
@@ -194,4 +195,54 @@ func Verif_C13_parent_chain() {
 		}
 	}
 	verifrt.Assert(agree, "enumeration and lookup agree")
+}
+
+// refUTF16BE decodes big-endian UTF-16 (ISO 10646 annex C): surrogate pairs
+// combine, unpaired surrogates become U+FFFD; returns the code points.
+func refUTF16BE(b []byte) []rune {
+	var out []rune
+	for i := 0; i+1 < len(b); i += 2 {
+		u := rune(b[i])<<8 | rune(b[i+1])
+		if u >= 0xd800 && u < 0xdc00 && i+3 < len(b) {
+			v := rune(b[i+2])<<8 | rune(b[i+3])
+			if v >= 0xdc00 && v < 0xe000 {
+				out = append(out, 0x10000+(u-0xd800)<<10+(v-0xdc00))
+				i += 2
+				continue
+			}
+		}
+		if u >= 0xd800 && u < 0xe000 {
+			u = 0xfffd
+		}
+		out = append(out, u)
+	}
+	return out
+}
+
+// Verif_C13_tounicode_text: the destination strings of an extracted
+// ToUnicode CMap are UTF-16BE; toString on 1-2 (thorough: 3) code units yields
+// exactly the code points of the reference decoder (nothing dropped, nothing
+// reinterpreted).
+func Verif_C13_tounicode_text() {
+	// code units from the boundary values of UTF-16 (the conversion of a
+	// symbolic code point to UTF-8 text is enumerated value by value by the
+	// engine, so the units are concrete per path): 1-3 units
+	units := []uint16{0x0041, 0x00e9, 0x07ff, 0x0800, 0xd7ff, 0xd800, 0xd83d, 0xdbff, 0xdc00, 0xde00, 0xdfff, 0xe000, 0xfeff, 0xfffe, 0xffff}
+	var b []byte
+	for i := 0; i < 1+verifrt.Choice("moreunits", 2+verifrt.Tier()); i++ {
+		u := units[verifrt.Choice("unit", len(units))]
+		b = append(b, byte(u>>8), byte(u))
+	}
+	s, err := toString(postscript.String(b))
+	verifrt.Assert(err == nil, "even-length destination accepted")
+	want := refUTF16BE(b)
+	got := []rune(s)
+	verifrt.Cover("decoded")
+	same := len(got) == len(want)
+	for i := range want {
+		if i < len(got) && got[i] != want[i] {
+			same = false
+		}
+	}
+	verifrt.Assert(same, "destination text is the UTF-16BE decoding of the bytes")
 }
